@@ -735,7 +735,9 @@ class H2Protocol(Protocol):
     def data_received(self, data: bytes) -> None:
         try:
             events = self.connection.feed(data)
-        except ProtocolError:
+        except (ProtocolError, UnicodeDecodeError):
+            # header blocks that can not be decoded with the configured
+            # header encoding are reported by h2 as UnicodeDecodeError
             log.debug('Protocol error', exc_info=True)
             self.processor.close('Protocol error')
         else:
